@@ -83,7 +83,7 @@ func loadEngine(repo, specDir string) (*Engine, error) {
 	// contracts in the repo
 	for _, p := range pkgs {
 		for _, f := range p.CompiledGoFiles {
-			if filepath.Base(f) == "zz_contracts_verif.go" {
+			if b := filepath.Base(f); strings.HasPrefix(b, "zz_contracts") && strings.HasSuffix(b, "_verif.go") {
 				if err := eng.cs.loadGoFile(f, p.PkgPath); err != nil {
 					return nil, err
 				}
